@@ -78,7 +78,7 @@ impl FromRgb<AnsiKind> for Ansi {
                         0..=8 => Ansi(16),
                         248.. => Ansi(231),
                         _ => {
-                            let value = (((r - 8_f64) / 247_f64) + 232_f64).round();
+                            let value = (((r - 8_f64) / 247_f64) * 24_f64 + 232_f64).round();
                             Ansi(value as u8)
                         }
                     };
